@@ -29,6 +29,7 @@ structure Obs where
   evalinfo : List String := []
   stamps : List (String × List Nat × Nat × Nat) := []
   maxin : Option Nat := none
+  gids : Option Nat := none
   ctxseen : Option Nat := none
   evnames : Option Nat := none
   quiesced : Option Nat := none
@@ -57,6 +58,7 @@ def Obs.addLine (o : Obs) (f : List String) : Obs :=
       { o with stamps := o.stamps ++ [(kind, nums.take (nums.length - 2), nums.getD (nums.length - 2) 0, nums.getD (nums.length - 1) 0)] }
     else o
   | ["maxin", n] => { o with maxin := n.toNat? }
+  | ["gids", n] => { o with gids := n.toNat? }
   | ["ctxseen", n] => { o with ctxseen := n.toNat? }
   | ["evnames", n] => { o with evnames := n.toNat? }
   | ["quiesced", n] => { o with quiesced := n.toNat? }
@@ -185,9 +187,14 @@ def checkCommon (p : Prog) (sc : Scenario) (defaultConc : Nat) (o : Obs) : List 
   (let bound := match p.conc with
      | some _ => sc.conc.getD defaultConc
      | none => defaultConc
-   match o.maxin with
-   | some m => if m > bound then [("maxin", s!"{m} functions in flight, bound {bound}")] else []
-   | none => [("maxin", "missing")]) ++
+   (match o.maxin with
+    | some m => if m > bound then [("maxin", s!"{m} functions in flight, bound {bound}")] else []
+    | none => [("maxin", "missing")]) ++
+   -- goroutines that ran user functions, argument expressions or emitter callbacks during one execution:
+   -- the caller, at most `bound` workers (generated bodies never Goexit, so no respawn) and the loop
+   (match o.gids with
+    | some g => if g > bound + 2 then [("gids", s!"{g} distinct goroutines ran user code or emitter callbacks, bound {bound}+2")] else []
+    | none => [("gids", "missing")])) ++
   (if o.ctxseen != some 1 then [("ctxseen", "a function did not see the directive's context")] else []) ++
   (if o.evnames != some 1 then [("events", "an emitter was initialised with an unexpected name")] else []) ++
   (if o.quiesced != some 1 then [("quiesce", "goroutines still alive after the directive returned")] else []) ++
